@@ -11,6 +11,7 @@ implementation's own payment dumps.
 -/
 import LndModel.Prelude.Lines
 import LndModel.C16.Model
+import LndModel.C16.Light
 
 open LndModel LndModel.Lines LndModel.C16
 
@@ -225,6 +226,18 @@ structure St where
   cFinal : List (Nat × Nat) := []            -- hash ↦ final status
   concCases : Nat := 0
   concOps : Nat := 0
+  /-- cross-backend stream: this state replays one half of every line; MONITOR lines are not
+      printed (the per-backend streams report them), MISMATCH lines are. -/
+  quiet : Bool := false
+  side : String := ""
+  /-- model: existing payments by sequence number (ghost `orderStep`). -/
+  order : List Nat := []
+  /-- monitor's own creation order (successful InitPayment / DeletePayment(s) answers). -/
+  morder : List Nat := []
+  /-- hash ↦ largest settled amount the implementation has reported since the payment was
+      (re-)initiated. -/
+  paid : List (Nat × Nat) := []
+  pages : Nat := 0
 
 def mget (m : List (Nat × MP)) (h : Nat) : Option MP := m.lookup h
 def mset (m : List (Nat × MP)) (h : Nat) (v : MP) : List (Nat × MP) := (h, v) :: m.filter (·.1 != h)
@@ -235,14 +248,15 @@ def lset (m : List (Nat × Nat)) (h : Nat) (v : Nat) : List (Nat × Nat) := (h, 
 def ldel (m : List (Nat × Nat)) (h : Nat) : List (Nat × Nat) := m.filter (·.1 != h)
 
 def mismatch (s : St) (detail : String) : IO St := do
-  IO.println s!"MISMATCH case={s.caseId} line={s.lines} {detail}"
+  IO.println s!"MISMATCH case={s.caseId} line={s.lines} {s.side}{detail}"
   return { s with mismatches := s.mismatches + 1 }
 
 /-- `dupTag`: the failure is attributable solely to an admitted duplicate attempt id (the known
     KVStore overwrite); only such lines carry `dup=1`. -/
 def monitor (s : St) (clause detail : String) (dupTag : Bool := false) : IO St := do
   let tag := if dupTag then " dup=1" else ""
-  IO.println s!"MONITOR case={s.caseId} clause={clause} line={s.lines} {detail}{tag}"
+  if !s.quiet then
+    IO.println s!"MONITOR case={s.caseId} clause={clause} line={s.lines} {detail}{tag}"
   return { s with monitorFails := s.monitorFails + 1 }
 
 def insertLE (a : LE) : List LE → List LE
@@ -296,6 +310,17 @@ def checkDump (s : St) (h : Nat) (d : Dump) (hist : Bool := true) : IO St := do
       s ← monitor s "failed-sticky" s!"h={h} status went from failed to {d.st} without re-initiation"
   | _ => pure ()
   s := { s with lastSt := lset s.lastSt h d.st }
+  -- a payment that ever had a settled attempt: never failed, amount paid never decreases
+  let paidNow := (d.htlcs.filter (·.st == "S")).foldl (fun acc x => acc + x.amt) 0
+  match lget s.paid h with
+  | some was =>
+    if !setl || paidNow < was then
+      s ← monitor s "settled-monotone" s!"h={h} amount paid went from {was} to {paidNow} (settled attempt present: {setl}) without re-initiation / deletion"
+    if d.st == 4 then
+      s ← monitor s "settled-monotone" s!"h={h} a payment that had a settled attempt ({was} paid) is reported failed"
+  | none => pure ()
+  if setl then
+    s := { s with paid := lset s.paid h (max paidNow ((lget s.paid h).getD 0)) }
   match mget s.mon h with
   | none => s ← monitor s "fetch-truth" s!"h={h} a payment is returned that was never initiated (or was deleted)"
   | some m =>
@@ -440,6 +465,7 @@ def step (s : St) (line : String) : IO St := do
     let isConc := (kv? rest "kind") == some "conc"
     let s := { s with contract := (kv? rest "kind") == some "contract" }
     let s := { s with bulkPending := [] }
+    let s := { s with order := [], morder := [], paid := [] }
     let s := { s with caseId := id, store := Store.empty, mon := [], lastSt := [], dup := false,
                       cases := s.cases + 1, conc := isConc, cRegs := [], cRes := [], cInit := [],
                       cFail := [], cDel := [], cDelFailed := [], cFinal := [], concCases := s.concCases + (if isConc then 1 else 0) }
@@ -457,10 +483,10 @@ def step (s : St) (line : String) : IO St := do
     let ans := answer ws
     let impl := ans.headD "?"
     let implStr := " ".intercalate ans
-    let global := opName == "inflight" || opName == "delall" || opName == "list"
+    let global := opName == "inflight" || opName == "delall" || opName == "list" || opName == "page"
     let some hN := (if global then some 0 else kvNat? ws "h") | mismatch s s!"unparsed line: {line.take 80}"
     let mut s := bumpErr { s with ops := s.ops + 1 } impl
-    if s.samples < 6 then
+    if s.samples < 6 && !s.quiet then
       IO.println s!"SAMPLE case={s.caseId} {line.take 200}"
       s := { s with samples := s.samples + 1 }
     if impl == "panic" then
@@ -485,7 +511,8 @@ def step (s : St) (line : String) : IO St := do
       | "fetch" => some (Op.fetch hN)
       | _ => none
     if opName == "inflight" then
-      let set := s.store.inFlightSet [0, 1, 2]
+      -- the SQL store selects by the WHERE clause of FetchNonTerminalPayments
+      let set := if s.backend == .sql then s.store.inFlightSetSql [0, 1, 2] else s.store.inFlightSet [0, 1, 2]
       let m := "ok set=" ++ (if set.isEmpty then "-" else ",".intercalate (set.map toString))
       if m != implStr then
         s ← mismatch s s!"inflight: model={m} impl={implStr}"
@@ -497,10 +524,27 @@ def step (s : St) (line : String) : IO St := do
     else if opName == "delall" then
       let fo := (kvNat? ws "fo") == some 1
       let fho := (kvNat? ws "fho") == some 1
-      let m := s!"ok n={s.store.bulkCount fo fho [0, 1, 2]}"
+      let n := if s.backend == .sql then s.store.bulkCountL fo fho [0, 1, 2] else s.store.bulkCount fo fho [0, 1, 2]
+      let m := s!"ok n={n}"
       if m != implStr then
         s ← mismatch s s!"delall fo={fo} fho={fho}: model={m} impl={implStr}"
-      s := { s with store := (C16.step s.backend s.store (Op.delAll fo fho)).1 }
+      s := { s with order := orderStep s.store (Op.delAll fo fho) true s.order }
+      s := { s with store := (stepD s.backend s.store (Op.delAll fo fho)).1 }
+    else if opName == "page" then
+      let incl := (kvNat? ws "incl") == some 1
+      let rev := (kvNat? ws "rev") == some 1
+      let cur := (kv? ws "cur").bind (·.toNat?)
+      let mx := (kvNat? ws "max").getD 1
+      let m := match cur with
+        | some c => if !s.order.contains c then some "nocursor" else none
+        | none => none
+      let m := m.getD (
+        let l := s.store.page s.order incl rev cur mx
+        "ok set=" ++ (if l.isEmpty then "-" else ",".intercalate (l.map (fun (h, st) => s!"{h}:{statusNum st}")))
+          ++ s!" off=1 total={s.order.length}")
+      if m != implStr then
+        s ← mismatch s s!"page incl={incl} rev={rev} cur={cur} max={mx}: model={m} impl={implStr}"
+      s := { s with pages := s.pages + 1 }
     else
       match modelOp with
       | none => s ← mismatch s s!"unparsed line: {line.take 80}"
@@ -510,10 +554,12 @@ def step (s : St) (line : String) : IO St := do
           if !opOk s.store op then
             s ← mismatch s s!"{opName} h={hN}: a contract case issued an operation outside the caller contract (opOk = false)"
           s := { s with contractOps := s.contractOps + 1 }
-        let (st', r) := C16.step s.backend s.store op
+        -- KV model, or the SQL model with its lightweight status path (`stepSqlL`)
+        let (st', r) := stepD s.backend s.store op
         let m := resStr r
         if m != implStr then
           s ← mismatch s s!"{opName} h={hN}: model={m} impl={implStr}"
+        s := { s with order := orderStep s.store op (r.1 == .ok) s.order }
         s := { s with store := st' }
     -- ---------- monitor (S) ----------
     let dump := if impl == "ok" then parseDump ans else none
@@ -528,7 +574,10 @@ def step (s : St) (line : String) : IO St := do
           if m.status != 4 then
             s ← monitor s "no-reinit" s!"h={hN} re-initiated while status={m.status} (1=initiated 2=inflight 3=succeeded)"
         | none => pure ()
-        s := { s with mon := mset s.mon hN { value := v }, lastSt := ldel s.lastSt hN }
+        if (lget s.paid hN).isSome then
+          s ← monitor s "settled-monotone" s!"h={hN} re-initiated although it had a settled attempt"
+        s := { s with mon := mset s.mon hN { value := v }, lastSt := ldel s.lastSt hN,
+                      paid := ldel s.paid hN, morder := s.morder.filter (· != hN) ++ [hN] }
       else if mp.isSome then
         s := { s with reinitRefused := s.reinitRefused + 1 }
     | "reg" =>
@@ -621,7 +670,8 @@ def step (s : St) (line : String) : IO St := do
           if m.status == 2 then
             s ← monitor s "delete-inflight" s!"h={hN} {opName} allowed while the payment is in flight"
           if opName == "del" then
-            s := { s with mon := mdel s.mon hN, lastSt := ldel s.lastSt hN }
+            s := { s with mon := mdel s.mon hN, lastSt := ldel s.lastSt hN, paid := ldel s.paid hN,
+                          morder := s.morder.filter (· != hN) }
           else
             s := { s with mon := mset s.mon hN { m with ledger := m.ledger.filter (·.st != "F") } }
     | "delall" =>
@@ -643,7 +693,9 @@ def step (s : St) (line : String) : IO St := do
           if acts m then
             if fho then some (h, { m with ledger := m.ledger.filter (·.st != "F") }) else none
           else some (h, m))
-        s := { s with mon := mon', lastSt := s.lastSt.filter (fun (h, _) => mon'.any (·.1 == h)) }
+        s := { s with mon := mon', lastSt := s.lastSt.filter (fun (h, _) => mon'.any (·.1 == h)),
+                      paid := s.paid.filter (fun (h, _) => mon'.any (·.1 == h)),
+                      morder := s.morder.filter (fun h => mon'.any (·.1 == h)) }
     | "list" =>
       if impl == "ok" then
         let incl := (kvNat? ws "incl") == some 1
@@ -653,6 +705,27 @@ def step (s : St) (line : String) : IO St := do
         let wantS := if want.isEmpty then "-" else ",".intercalate want
         if (kv? ans "set") != some wantS then
           s ← monitor s "listing" s!"QueryPayments(IncludeIncomplete={incl})={(kv? ans "set").getD "?"} but the payments (hash:status) are {wantS}"
+    | "page" =>
+      if impl == "ok" then
+        -- expected page from the monitor's own creation order and ledger statuses
+        let incl := (kvNat? ws "incl") == some 1
+        let rev := (kvNat? ws "rev") == some 1
+        let cur := (kv? ws "cur").bind (·.toNat?)
+        let mx := (kvNat? ws "max").getD 1
+        let range := match cur with
+          | none => s.morder
+          | some c => if rev then s.morder.takeWhile (· != c) else (s.morder.dropWhile (· != c)).drop 1
+        let shown := range.filterMap (fun h => match mget s.mon h with
+          | some m => if incl || m.status == 3 then some s!"{h}:{m.status}" else none
+          | none => none)
+        let want := if rev then shown.drop (shown.length - mx) else shown.take mx
+        let wantS := if want.isEmpty then "-" else ",".intercalate want
+        if (kv? ans "set") != some wantS then
+          s ← monitor s "listing" s!"QueryPayments(IncludeIncomplete={incl},Reversed={rev},cursor=h{cur},max={mx})={(kv? ans "set").getD "?"} but by creation order / status the page is {wantS}"
+        if (kvNat? ans "off") != some 1 then
+          s ← monitor s "listing" s!"QueryPayments page: First/LastIndexOffset or the sequence numbers of the page are inconsistent"
+        if (kvNat? ans "total") != some s.mon.length then
+          s ← monitor s "listing" s!"QueryPayments TotalCount={(kvNat? ans "total").getD 0} but {s.mon.length} payments exist"
     | "fetch" =>
       match s.bulkPending.find? (·.1 == hN) with
       | some (_, stBefore, mayGo) =>
@@ -682,11 +755,141 @@ def step (s : St) (line : String) : IO St := do
     | none => pure ()
     return s
 
+/-! ### cross-backend stream (`x`): the same call on the real KVStore and the real SQLStore -/
+
+/-- the documented error identities (both answers are errors, nothing is written). -/
+def errClassS (opName e : String) : String :=
+  match opName with
+  | "reg" | "del" | "delfailed" => if e == "NotInitiated" then "other" else e
+  | "settle" | "failatt" =>
+    if e == "AttemptAlreadyFailed" || e == "AttemptAlreadySettled" then "other" else e
+  | _ => e
+
+structure XS where
+  kv : St := { backend := .kv, quiet := true, side := "side=kv " }
+  sql : St := { backend := .sql, quiet := true, side := "side=sql " }
+  caseId : String := "0"
+  contract : Bool := false
+  /-- some operation of the case so far was outside the history restriction, judged from the
+      operation list alone: a registration re-using an attempt id that an earlier registration of
+      the case used, or a Settle/FailAttempt naming an id that was used for another payment. -/
+  taint : Bool := false
+  /-- the two stores have answered differently in this case: nothing more is compared. -/
+  diverged : Bool := false
+  used : List (Nat × Nat) := []     -- (attempt id, payment) of every registration issued
+  lines : Nat := 0
+  compared : Nat := 0
+  agreedUpToIdentity : Nat := 0
+  cases : Nat := 0
+  taintedCases : Nat := 0
+  divDup : Nat := 0
+  divForeign : Nat := 0
+  modelDivergent : Nat := 0
+  fails : Nat := 0
+  samples : Nat := 0
+
+def stepXS (x : XS) (line : String) : IO XS := do
+  let ws := words line
+  let x := { x with lines := x.lines + 1 }
+  match ws with
+  | "CASE" :: id :: rest =>
+    let kv ← step x.kv line
+    let sql ← step x.sql line
+    return { x with kv := kv, sql := sql, caseId := id, contract := (kv? rest "kind") == some "contract",
+                    taint := false, diverged := false, used := [], cases := x.cases + 1 }
+  | [] => return x
+  | ["END"] => return x
+  | "FACT" :: _ => return x
+  | opName :: _ =>
+    -- split "<op> => <kv answer> ## <sql answer>"
+    let pre := ws.takeWhile (· ≠ "=>")
+    let ans := answer ws
+    let kvAns := ans.takeWhile (· ≠ "##")
+    let sqlAns := (ans.dropWhile (· ≠ "##")).drop 1
+    let kvLine := " ".intercalate (pre ++ ["=>"] ++ kvAns)
+    let sqlLine := " ".intercalate (pre ++ ["=>"] ++ sqlAns)
+    let mut x := x
+    if x.samples < 4 then
+      IO.println s!"SAMPLE case={x.caseId} {line.take 240}"
+      x := { x with samples := x.samples + 1 }
+    -- the model's prediction (hypothesis of `backend_bisimulation`), in the SQL model's store
+    -- before the call; meaningful while the two stores have not diverged
+    let hN := (kvNat? ws "h").getD 0
+    let idN := (kvNat? ws "id").getD 0
+    let predicted : Bool :=
+      match opName with
+      | "reg" =>
+        let shape := shapeOf ((kv? ws "kind").getD "p") ((kvNat? ws "addr").getD 0) ((kvNat? ws "total").getD 0)
+        diverges x.sql.store (Op.reg hN ⟨idN, (kvNat? ws "amt").getD 0, (kvNat? ws "fee").getD 0, shape, .inflight⟩)
+      | "settle" => diverges x.sql.store (Op.settle hN idN)
+      | "failatt" => diverges x.sql.store (Op.failAtt hN idN)
+      | _ => false
+    -- history restriction from the operation list alone (a superset of `opOk = false`)
+    let wasTaint := x.taint
+    if opName == "reg" then
+      if x.used.any (·.1 == idN) then x := { x with taint := true }
+      x := { x with used := (idN, hN) :: x.used }
+    if opName == "settle" || opName == "failatt" then
+      if x.used.any (fun (i, h) => i == idN && h != hN) then x := { x with taint := true }
+    if x.taint && !wasTaint then
+      x := { x with taintedCases := x.taintedCases + 1 }
+      if x.contract then
+        IO.println s!"MISMATCH case={x.caseId} line={x.lines} a contract case issued {opName} h={hN} id={idN} outside the history restriction"
+        x := { x with fails := x.fails + 1 }
+    -- both halves through the per-backend pipeline (model replay; monitor lines suppressed)
+    let kv ← step x.kv kvLine
+    let sql ← step x.sql sqlLine
+    x := { x with kv := kv, sql := sql }
+    if x.diverged then return x
+    -- ---------- backends-agree ----------
+    let ka := " ".intercalate kvAns
+    let sa := " ".intercalate sqlAns
+    let sameUpTo := kvAns.length == 1 && sqlAns.length == 1 && ka != "ok" && sa != "ok" &&
+      errClassS opName ka == errClassS opName sa
+    let agree := ka == sa || sameUpTo
+    x := { x with compared := x.compared + 1,
+                  agreedUpToIdentity := x.agreedUpToIdentity + (if ka != sa && sameUpTo then 1 else 0) }
+    if predicted then x := { x with modelDivergent := x.modelDivergent + 1 }
+    if predicted == agree then
+      IO.println s!"MISMATCH case={x.caseId} line={x.lines} {opName} h={hN}: the model predicts {if predicted then "different" else "identical"} answers of the two backends, the real stores answered kv=[{ka.take 60}] sql=[{sa.take 60}]"
+      x := { x with fails := x.fails + 1 }
+    if !agree then
+      x := { x with diverged := true }
+      -- the only explained divergences: the two open findings, and only outside the restriction
+      let dupShape := x.taint && opName == "reg" && kvAns.headD "" == "ok" && sqlAns.headD "" != "ok"
+      let foreignShape := x.taint && (opName == "settle" || opName == "failatt") &&
+        sqlAns.headD "" == "ok" && kvAns.headD "" != "ok"
+      let tag := if dupShape then " dup=1" else if foreignShape then " foreign=1" else ""
+      if dupShape then x := { x with divDup := x.divDup + 1 }
+      if foreignShape then x := { x with divForeign := x.divForeign + 1 }
+      IO.println s!"MONITOR case={x.caseId} clause=backends-agree line={x.lines} {opName} h={hN} id={idN}: KVStore answered [{ka.take 120}] but SQLStore answered [{sa.take 120}] (history restriction respected so far: {!x.taint}){tag}"
+      x := { x with fails := x.fails + 1 }
+    return x
+
 end LndModel.C16.Driver
+
+open LndModel.C16.Driver in
+def mainX : IO Unit := do
+  let x ← LndModel.Lines.foldStdin stepXS {}
+  IO.println s!"STAT lines={x.lines}"
+  IO.println s!"STAT cases={x.cases}"
+  IO.println s!"STAT evaluations={x.compared}"
+  IO.println s!"STAT nontrivial={x.kv.regOk + x.kv.settles + x.kv.failAtts + x.kv.fails + x.kv.reinitOk + x.kv.reinitRefused + x.kv.regExceed + x.kv.dels}"
+  IO.println s!"STAT xdiff_answers_compared={x.compared}"
+  IO.println s!"STAT xdiff_agree_up_to_error_identity={x.agreedUpToIdentity}"
+  IO.println s!"STAT xdiff_cases_leaving_restriction={x.taintedCases}"
+  IO.println s!"STAT xdiff_divergence_dup_id={x.divDup}"
+  IO.println s!"STAT xdiff_divergence_foreign_attempt={x.divForeign}"
+  IO.println s!"STAT xdiff_model_predicted_divergent={x.modelDivergent}"
+  IO.println s!"STAT xdiff_pages={x.kv.pages}"
+  IO.println s!"STAT mismatches={x.kv.mismatches + x.sql.mismatches}"
 
 open LndModel.C16.Driver in
 def main (args : List String) : IO Unit := do
   let name := args.getLast?.getD "kv"
+  if name.startsWith "x" then
+    mainX
+    return
   let backend := if name.startsWith "sql" then LndModel.C16.Backend.sql else LndModel.C16.Backend.kv
   let s ← LndModel.Lines.foldStdin step { backend := backend }
   IO.println s!"STAT lines={s.lines}"
@@ -710,6 +913,7 @@ def main (args : List String) : IO Unit := do
   IO.println s!"STAT dup_ids_admitted={s.dupAdmitted}"
   IO.println s!"STAT foreign_attempts_resolved={s.foreignResolved}"
   IO.println s!"STAT bulk_deletes={s.bulkDeletes}"
+  IO.println s!"STAT pages={s.pages}"
   IO.println s!"STAT contract_ops_respecting={s.contractOps}"
   IO.println s!"STAT concurrent_cases={s.concCases}"
   IO.println s!"STAT concurrent_ops={s.concOps}"
